@@ -424,7 +424,13 @@ def run_update(w, rec):
 
 
 def run_update_sigma(w, rec):
-    w.obj(rec["a"]).update_Sigma(w.f(rec, "Sigma"))
+    o = w.obj(rec["a"])
+    S = w.f(rec, "Sigma")
+    if int(S.shape[0]) == 1 and int(o.Sigma.shape[0]) > 1:
+        # the record addresses an NN-controlled conditional (one shared covariance); its general-class
+        # twin set_control_variable(u) carries one copy per control input
+        S = lib()["jnp"].tile(S, (int(o.Sigma.shape[0]), 1, 1))
+    o.update_Sigma(S)
     return [w.slots[rec["a"]]]
 
 
